@@ -77,7 +77,10 @@ def run_one(d, m, binp):
     lines[i] = new
     open(f, "w").write("\n".join(lines))
     try:
-        r = subprocess.run("go build ./... 2>&1", shell=True, cwd=d, env=ENV, capture_output=True, text=True, errors="replace", timeout=300)
+        try:
+            r = subprocess.run("go build ./... 2>&1", shell=True, cwd=d, env=ENV, capture_output=True, text=True, errors="replace", timeout=900)
+        except subprocess.TimeoutExpired:
+            return (m, "nobuild", "timeout")
         if r.returncode != 0:
             return (m, "nobuild", "")
         try:
